@@ -208,7 +208,26 @@ def add_prf_natives(reg):
                               'blocks': 'blocksize > 0 ==> (len(result) % blocksize == 0 and len(result) >= 1)',
                               'one_block': '(blocksize > 0 and n < 256 ** blocksize) ==> result == i2osp(n, blocksize)'},
                      pure=True, assumed='bounded: bounded/bigint.py number.long_to_bytes against int.to_bytes (minimal length, front-padded to a multiple of blocksize)'))
+    l2b = reg.contracts[N + 'long_to_bytes']
+
+    def m_long_to_bytes(E, st, args, kwargs):
+        """the same assumed contract; when the path condition puts n below 256**blocksize (one block) its `one_block` clause is
+        applied directly: the result IS i2osp(n, blocksize)"""
+        reg.used.add(l2b.target)
+        full = list(args) + [kwargs[k] for k in ('n', 'blocksize')[len(args):] if k in kwargs]
+        if len(full) == 2 and isinstance(full[1], int) and 0 < full[1] <= 16 and is_intlike(full[0]):
+            n = zint(full[0])
+            if E.implied(st, z3.And(n >= 0, n < 256 ** full[1])):
+                from vf.pyvc.models import i2osp_value
+                return [('val', st, mk_bytes(i2osp_value(E, st, n, full[1])))]
+        return apply_contract(E, l2b, st, args, kwargs)
+    reg.models[N + 'long_to_bytes'] = m_long_to_bytes
     return reg
+
+
+def _shape(num_keys):
+    """result type of the multi-key functions: one byte string, or a list of num_keys byte strings"""
+    return 'bytes' if num_keys == 1 else 'list(%s)' % ','.join(['bytes'] * num_keys)
 
 
 def _prf_terms(prf, hm):
@@ -235,7 +254,7 @@ def add_kdfs(reg, pbkdf2=None, num_keys=1, count=None):
             ens['key%d' % i] = 'result[%d] == %s[%d * key_len:%d * key_len]' % (i, stream, i, i + 1)
     reg.add(Contract(K + 'HKDF', params={'master': 'bytes', 'key_len': 'pos', 'salt': 'bytes|none', 'hashmod': HASHMOD,
                                          'num_keys': ('const', num_keys), 'context': 'bytes|none'},
-                     raises={'ValueError': ('iff', 'key_len * num_keys > 255 * %s' % h)}, modifies=[], ensures=ens,
+                     raises={'ValueError': ('iff', 'key_len * num_keys > 255 * %s' % h)}, modifies=[], ensures=ens, result=_shape(num_keys),
                      opaque=['spec.kdf.hkdf_expand', 'spec.kdf.hkdf_extract']))
     # ---------------------------------------------------------------- PBKDF1 (RFC 8018 5.1)
     alg = '(hashAlgo.g_alg if hashAlgo is not None else 160)'
@@ -243,7 +262,7 @@ def add_kdfs(reg, pbkdf2=None, num_keys=1, count=None):
     reg.add(Contract(K + 'PBKDF1', params={'password': 'bytes', 'salt': 'bytes', 'dkLen': 'nat', 'count': 'pos', 'hashAlgo': HASHMOD + '|none'},
                      # step 1: "If dkLen > 16 for MD2 and MD5, or dkLen > 20 for SHA-1, output 'derived key too long' and stop"; salt: eight octets
                      raises={'TypeError': ('iff', 'dkLen > %s' % hl1), 'ValueError': ('iff', 'dkLen <= %s and len(salt) != 8' % hl1)},
-                     modifies=[],
+                     modifies=[], result='bytes',
                      ensures={'value': 'result == spec.kdf.pbkdf1(%s, password, salt, count, dkLen)' % alg, 'len': 'len(result) == dkLen'},
                      loops={0: {'types': {'pHash': 'obj:native.Hash'}, 'index': 'k',
                                 'invariant': ['valid(pHash)', 'pHash.g_alg == %s' % alg.replace('hashAlgo', 'old(hashAlgo)'),
@@ -278,7 +297,7 @@ def add_kdfs(reg, pbkdf2=None, num_keys=1, count=None):
                      # step 1: "If dkLen > (2^32 - 1) * hLen, output 'derived key too long' and stop": here the struct.error of INT(i)
                      raises={'ValueError': ('iff', both),
                              'struct.error': ('iff', 'not (%s) and dkLen > (2 ** 32 - 1) * %s' % (both, hl))},
-                     modifies=[],
+                     modifies=[], result='bytes',
                      ensures={'value': 'result == spec.kdf.pbkdf2(%s, %s, %s, password, salt, count, dkLen)' % (kind, fid, hl),
                               'len': 'len(result) == dkLen'},
                      loops={0: {'invariant': inv(okind, ofid, ohl)}, 1: {'invariant': inv(okind, ofid, ohl)}},
@@ -286,9 +305,9 @@ def add_kdfs(reg, pbkdf2=None, num_keys=1, count=None):
                                       'blocks': 'spec.kdf.ceil_div(dkLen, %s) == i - 1' % hl}}))
     # ---------------------------------------------------------------- SP 800-108r1 4.1, KDF in counter mode (r = 32)
     # K(i) = PRF(K_IN, [i]_4 || Label || 0x00 || Context || [L]_4), L in BITS; result = leftmost L bits of K(1) || K(2) || ...
-    # Domain of the fixed-length encodings: L < 2**32 bits (beyond it long_to_bytes(L, 4) silently grows to 8 bytes: see the notes
-    # at the end of this file).  The library refuses when the counter WOULD overflow after the block just produced, i.e. it
-    # supports n = ceil(L / h) <= 2**32 - 2 blocks, one less than the standard's upper bound n <= 2**r - 1.
+    # Refused: NUL in Context; L >= 2**32 bits (does not fit [L]_4; refusal added by fix 44361996, before it the field silently
+    # grew to 8 bytes); counter overflow.  The library refuses when the counter WOULD overflow after the block just produced,
+    # i.e. it supports n = ceil(L / h) <= 2**32 - 2 blocks, one less than the standard's upper bound n <= 2**r - 1.
     nk = num_keys
     hl8 = 'prf.g_len'
     lbits = 'key_len * %d * 8' % nk
@@ -302,9 +321,10 @@ def add_kdfs(reg, pbkdf2=None, num_keys=1, count=None):
     reg.add(Contract(K + 'SP800_108_Counter',
                      params={'master': 'bytes', 'key_len': 'nat' if nk == 1 else 'pos', 'prf': PRFOBJ,
                              'num_keys': ('const', nk) if nk != 1 else "none|const:1", 'label': 'bytes', 'context': 'bytes'},
-                     requires=['prf.g_kind == 1', '%s < 2 ** 32' % lbits],
-                     raises={'ValueError': ('iff', 'bytes(1) in context or spec.kdf.ceil_div(key_len * %d, %s) >= 2 ** 32 - 1' % (nk, hl8))},
-                     modifies=[], ensures=ens,
+                     requires=['prf.g_kind == 1'],
+                     raises={'ValueError': ('iff', 'bytes(1) in context or %s >= 2 ** 32 or spec.kdf.ceil_div(key_len * %d, %s) >= 2 ** 32 - 1'
+                                            % (lbits, nk, hl8))},
+                     modifies=[], ensures=ens, result=_shape(nk),
                      loops={0: {'invariant': ['1 <= i', 'i <= 2 ** 32 - 1',
                                               'dk == spec.kdf.sp108_stream(prf.g_id, master, label, context, %s, i - 1)' % lbits,
                                               'len(dk) == (i - 1) * %s' % hl8, 'i >= 2 ==> len(dk) - %s < output_len' % hl8,
@@ -313,12 +333,221 @@ def add_kdfs(reg, pbkdf2=None, num_keys=1, count=None):
     return reg
 
 
-def registry(pbkdf2=None, num_keys=1, count=None):
+def add_scrypt(reg, num_keys=1):
+    """scrypt (RFC 7914): parameter domain, PBKDF2 -> p x ROMix -> PBKDF2 composition; ROMix (src/scrypt.c) abstract"""
+    from . import rawapi
+    from vf.pyvc.contracts import apply_opaque
+    from vf.pyvc.ops import POW2
+    rawapi.install_glue(reg)
+
+    def m_bit_size(E, st, args, kwargs):
+        """Crypto.Util.number.size(N) == N.bit_length() for N >= 0 (ValueError below): t with 2**(t-1) <= N < 2**t for N >= 1.
+        The defining inequality is stated on the very term that the code's `2 ** (size(N) - 1)` translates to, together with
+        the fact that below 2**64 this value is one of 2**0 .. 2**63.  EXACT model of a 4-line function (number.py)."""
+        reg.used.add('Crypto.Util.number.size')
+        n = zint(args[0])
+        outs = []
+        neg, ok = E.split(st, n < 0)
+        if neg is not None:
+            outs.append(('raise', neg, exc(ValueError, 'Size in bits only available for non-negative numbers')))
+        if ok is not None:
+            t = E.fresh_int('bit_length').t
+            p2 = POW2(1 * (t - 1))
+            ok.fact(t >= 0)
+            ok.fact((n == 0) == (t == 0))
+            ok.fact(z3.Implies(n >= 1, z3.And(p2 >= 1, p2 <= n, n < 2 * p2)))
+            ok.fact(z3.Implies(z3.And(n >= 1, n < 2 ** 64), z3.Or([z3.And(p2 == 2 ** k, t == k + 1) for k in range(64)])))
+            outs.append(('val', ok, mk_int(t)))
+        return outs
+    reg.models['Crypto.Util.number.size'] = m_bit_size
+
+    def m_romix(E, st, args, kwargs):
+        """scryptROMix(data_in, data_out, data_len, N, core) (src/scrypt.c): data_out := scryptROMix_{Salsa20/8}(r = data_len/128,
+        data_in, N), returns 0.  C preconditions (call-site obligations): data_len == len(data_in) == size of data_out,
+        data_len a multiple of 128, 0 <= N < 2**32 (C unsigned).  ASSUMED: the C function computes RFC 7914 ROMix (bounded:
+        bounded/kdfs.py scrypt against hashlib.scrypt on an (N, r, p) grid); calloc of (N+1)*data_len bytes succeeds
+        (ERR_MEMORY, i.e. ValueError 'Error ... while running scrypt', is an environment outcome that is not modelled)."""
+        reg.used.add('native scryptROMix')
+        if kwargs or len(args) != 5:
+            return [('raise', st, exc(TypeError, 'scryptROMix takes 5 arguments'))]
+        data_in, out, dlen, N, _core = args
+        if not (isinstance(out, Ref) and st.heap[out.oid].kind == 'bytearray') or not is_byteslike(data_in):
+            raise Unsupported('scryptROMix buffers')
+        zin, zout = zbytes(data_in), zbytes(st.heap[out.oid].items)
+        where = 'call of scryptROMix'
+        E.oblige(st, z3.And(zint(dlen) == z3.Length(zin), zint(dlen) == z3.Length(zout)), 'call_pre', where, {'clause': 'data_len == len(data_in) == len(data_out)'})
+        E.oblige(st, zint(dlen) % 128 == 0, 'call_pre', where, {'clause': 'data_len % 128 == 0'})
+        E.oblige(st, z3.And(zint(N) >= 0, zint(N) < 2 ** 32), 'call_pre', where, {'clause': '0 <= N < 2**32'})
+        st.heap[out.oid].items = apply_opaque(E, 'spec.kdf.romix', st, [N, data_in], {})[0][2]
+        st.writes.append((out.oid, '<data>'))
+        return [('val', st, 0)]
+    rawapi.install_lib(reg, K + '_raw_scrypt_lib', 'native.scrypt_lib', {'scryptROMix': m_romix})
+    rawapi.install_lib(reg, K + '_raw_salsa20_lib', 'native.salsa20_lib', {'Salsa20_8_core': lambda E, st, a, k: [('val', st, None)]})
+    pb = reg.contracts[K + 'PBKDF2']
+
+    def m_pbkdf2_site(E, st, args, kwargs):
+        """PBKDF2 called with a prf that is a function of the code under contract (scrypt's lambda): PBKDF2's contract quantifies
+        over every callable satisfying the contract of native.PRF.__call__; that the lambda satisfies it with
+        (g_kind, g_id, g_len) = (0, 256, 32), i.e. prf(p, s) == HMAC-SHA256(p, s) for ALL p, s, is proved here as a call-site
+        obligation on fresh arguments; then the contract is applied with that abstract PRF in place of the lambda"""
+        kw = dict(kwargs)
+        prf = kw.get('prf')
+        if isinstance(prf, FuncV):
+            pp, ss = E.fresh_bytes('prf_p'), E.fresh_bytes('prf_s')
+            s0 = st.fork()
+            outs = E.call(prf, [pp, ss], {}, s0)
+            if len(outs) != 1 or outs[0][0] != 'val' or not is_byteslike(outs[0][2]):
+                raise Unsupported('prf passed to PBKDF2 is not a total function returning bytes')
+            s1, v = outs[0][1], outs[0][2]
+            hm = apply_opaque(E, 'spec.kdf.HMAC', s1, [256, pp, ss], {})[0][2]
+            E.oblige(s1, zbytes(v) == zbytes(hm), 'call_pre', 'call of ' + pb.target, {'clause': 'prf(p, s) == HMAC-SHA256(p, s) for all p, s'})
+            h = HObj('obj', cls=None, fields={'g_kind': 0, 'g_id': 256, 'g_len': 32})
+            h.ghost_id = 'native.PRF'
+            kw['prf'] = st.alloc(h)
+        reg.used.add(pb.target)
+        return apply_contract(E, pb, st, args, kw)
+    reg.models[K + 'PBKDF2'] = m_pbkdf2_site
+    nk = num_keys
+    spec = 'spec.kdf.scrypt(password, salt, N, r, p, key_len * %d)' % nk
+    if nk == 1:
+        ens = {'value': 'result == ' + spec, 'len': 'len(result) == key_len'}
+    else:
+        ens = {'count': 'len(result) == %d' % nk}
+        for i in range(nk):
+            ens['key%d' % i] = 'result[%d] == %s[%d * key_len:%d * key_len]' % (i, spec, i, i + 1)
+    ok = 'spec.kdf.scrypt_params_ok(N, r, p)'
+    reg.add(Contract(K + 'scrypt', params={'password': 'bytes', 'salt': 'bytes', 'key_len': 'nat' if nk == 1 else 'pos', 'N': 'int', 'r': 'int', 'p': 'int',
+                                           'num_keys': ('const', nk)},
+                     # parameters outside the domain are refused; dkLen > (2^32 - 1) * 32 is PBKDF2's "derived key too long"
+                     raises={'ValueError': ('iff', 'not ' + ok),
+                             'struct.error': ('iff', '%s and key_len * %d > (2 ** 32 - 1) * 32' % (ok, nk))},
+                     modifies=[], ensures=ens, result=_shape(nk),
+                     loops={0: {'havoc': ['data_out'], 'types': {'data_out': 'acc'}, 'index': 'k',
+                                # (the first clause is the arithmetic hint that block k lies inside stage_1)
+                                'invariant': ['k < p ==> (k + 1) * (128 * r) <= p * (128 * r)',
+                                              'len(data_out) == k', 'len(b"".join(data_out)) == k * (128 * r)',
+                                              'b"".join(data_out) == spec.kdf.scrypt_mix(stage_1, 128 * r, N, k)']}},
+                     opaque=['spec.kdf.pbkdf2']))
+    return reg
+
+
+BCRYPT_RE = br'\$2a\$([0-9][0-9])\$([A-Za-z0-9./]{22,22})([A-Za-z0-9./]{31,31})'
+
+
+def add_bcrypt(reg, cost=None):
+    """bcrypt / _bcrypt_hash / bcrypt_check.  bcrypt() itself is verified in parts that together cover every input:
+    cost == 'refuse': cost symbolic and OUTSIDE 4..31 (only refusals); cost an int in 4..31: instantiated for that cost (its two-digit
+    text `str(cost).zfill(2)` is string formatting, outside the subset for a symbolic cost; 4..31 is the whole valid domain, so the
+    instantiation is exhaustive).  cost None: the contract as callers (bcrypt_check) use it, for any cost."""
+    from vf.pyvc.contracts import apply_opaque
+    why_eks = ('Crypto.Cipher._EKSBlowfish (src/blowfish.c with EKS): EksBlowfishSetup(cost, salt, key) and ECB encryption; assumed, no independent '
+               'implementation installed (bounded: bounded/kdfs.py bcrypt against the published OpenBSD / passlib test vectors only)')
+    reg.add(ClassContract('native.EKSB', fields={'g_key': 'bytes', 'g_cost': 'int', 'g_salt': 'bytes', 'g_invert': 'bool'}, abstract=True))
+    reg.add(Contract('Crypto.Cipher._EKSBlowfish.new', params={'key': 'bytes', 'mode': 'int', 'salt': 'bytes', 'cost': 'int', 'invert': 'bool'},
+                     requires=['mode == 1', '0 <= cost <= 31', 'len(salt) >= 1'],      # MODE_ECB; C: `1U << cost`, circular reads of the salt
+                     raises={'ValueError': ('iff', 'len(key) > 72')}, result='obj:native.EKSB', modifies=[],
+                     ensures={'key': 'result.g_key == key', 'cost': 'result.g_cost == cost', 'salt': 'result.g_salt == salt',
+                              'invert': 'result.g_invert == invert'}, assumed=why_eks))
+    reg.add(Contract('native.EKSB.encrypt', params={'self': 'obj:native.EKSB', 'plaintext': 'bytes'}, requires=['len(plaintext) % 8 == 0'],
+                     returns='spec.kdf.eks_ecb(self.g_key, self.g_cost, self.g_salt, self.g_invert, plaintext)', modifies=[],
+                     options={'exact': True}, assumed=why_eks))
+    why_b64 = ("bcrypt's radix-64 text encoding: string formatting through bin()/zfill()/int(_, 2), outside PYVC's subset (bounded: "
+               'bounded/kdfs.py exhaustive over all 1- and 2-byte inputs, round trips on 16- and 23-byte inputs)')
+    reg.add(Contract(K + '_bcrypt_encode', params={'data': 'bytes'}, returns='spec.kdf.bcrypt64(data)', modifies=[], options={'exact': True},
+                     assumed=why_b64))
+    reg.add(Contract(K + '_bcrypt_decode', params={'data': 'bytes'}, requires=['len(data) % 4 != 1'], returns='spec.kdf.bcrypt64_dec(data)',
+                     modifies=[], options={'exact': True}, assumed=why_b64))
+    reg.add(Contract('Crypto.Random.get_random_bytes', params={'n': 'nat'}, result='bytes', ensures={'len': 'len(result) == n'}, modifies=[],
+                     assumed='unchecked: operating system entropy (any n bytes)'))
+    # ---- constant-time comparison through a randomly keyed BLAKE2s-160
+    reg.add(ClassContract('native.MAC160', fields={'g_key': 'bytes', 'g_data': 'bytes'}, abstract=True))
+    reg.add(Contract('native.MAC160.digest', params={'self': 'obj:native.MAC160'}, returns='spec.kdf.mac160(self.g_key, self.g_data)',
+                     modifies=[], options={'exact': True},
+                     assumed='keyed BLAKE2s-160 (bounded: bounded/hashes.py BLAKE2s); ASSUMED UNCHECKED: injective in its data argument for the '
+                             'drawn key (collision probability 2^-160), the spec.kdf.mac160 fact (as in C01)'))
+
+    def m_blake2s_new(E, st, args, kwargs):
+        reg.used.add('native.MAC160.digest')
+        kw = dict(kwargs)
+        if args or kw.pop('digest_bits', None) != 160:
+            raise Unsupported('BLAKE2s.new other than the 160-bit keyed comparison idiom')
+        key, data = kw.pop('key'), kw.pop('data')
+        if kw or not is_byteslike(key) or not is_byteslike(data):
+            raise Unsupported('BLAKE2s.new parameters')
+        h = HObj('obj', cls=None, fields={'g_key': key, 'g_data': data})
+        h.ghost_id = 'native.MAC160'
+        return [('val', st, st.alloc(h))]
+    reg.models['Crypto.Hash.BLAKE2s.new'] = m_blake2s_new
+    # ---- the regular expression of bcrypt_check: re.compile(<that pattern>).match(h) for a 60-byte h starting with "$2a$"
+    # matches iff spec.kdf.bcrypt_fmt_ok(h) (two digits, "$", 53 alphabet characters); groups 1..3 = h[4:6], h[7:29], h[29:60].
+    # EXACT for this fixed-width pattern (widths 4+2+1+22+31 = 60); any other pattern / shorter subject: Unsupported.
+    reg.add(ClassContract('native.BcryptRe', fields={}, abstract=True))
+    reg.add(ClassContract('native.BcryptMatch', fields={'g_h': 'bytes'}, abstract=True))
+
+    def m_re_compile(E, st, args, kwargs):
+        if kwargs or len(args) != 1 or args[0] != BCRYPT_RE:
+            raise Unsupported('re.compile of a pattern other than the bcrypt hash format')
+        h = HObj('obj', cls=None)
+        h.ghost_id = 'native.BcryptRe'
+        return [('val', st, st.alloc(h))]
+    reg.overrides['re.compile'] = BuiltinV('re.compile', m_re_compile)
+
+    def m_re_match(E, st, args, kwargs):
+        reg.used.add('regular expression of bcrypt_check (python re, modelled)')
+        _self, subj = args
+        zs = zbytes(subj)
+        if not (E.implied(st, z3.Length(zs) == 60) and E.implied(st, z3.SubSeq(zs, 0, 4) == zbytes(b'$2a$'))):
+            raise Unsupported('bcrypt regular expression on a subject that is not 60 bytes starting with "$2a$"')
+        okv = apply_opaque(E, 'spec.kdf.bcrypt_fmt_ok', st, [subj], {})[0][2]
+        outs = []
+        yes, no = E.split(st, okv.t)
+        if no is not None:
+            outs.append(('val', no, None))
+        if yes is not None:
+            m = HObj('obj', cls=None, fields={'g_h': subj})
+            m.ghost_id = 'native.BcryptMatch'
+            outs.append(('val', yes, yes.alloc(m)))
+        return outs
+    reg.models['native.BcryptRe.match'] = m_re_match
+    reg.add(Contract('native.BcryptMatch.group', params={'self': 'obj:native.BcryptMatch', 'k': 'int'}, requires=['1 <= k <= 3'], modifies=[],
+                     returns='ite(k == 1, self.g_h[4:6], ite(k == 2, self.g_h[7:29], self.g_h[29:60]))', options={'exact': True},
+                     assumed='python re (modelled exactly for the fixed-width bcrypt pattern): the groups of a match are these slices'))
+    # ---- _bcrypt_hash
+    reg.add(Contract(K + '_bcrypt_hash', params={'password': 'bytes', 'cost': 'int', 'salt': 'bytes', 'constant': 'bytes', 'invert': 'bool'},
+                     requires=['len(salt) >= 1', 'len(constant) % 8 == 0'],
+                     raises={'ValueError': ('iff', 'len(password) > 72 or not (4 <= cost <= 31)')}, modifies=[], result='bytes',
+                     ensures={'value': 'result == spec.kdf.bcrypt_raw(password, cost, salt, constant, invert)', 'len': 'len(result) == len(constant)'}))
+    # ---- bcrypt
+    dom = 'spec.kdf.bcrypt_domain_ok(password, cost, (16 if salt is None else len(salt)))'
+    reg.add(Contract(K + 'bcrypt', params={'password': 'bytes', 'cost': ('const', cost) if isinstance(cost, int) else 'int', 'salt': 'bytes|none'},
+                     requires=['not (4 <= cost <= 31)'] if cost == 'refuse' else [],
+                     raises={'ValueError': ('iff', 'not ' + dom)}, modifies=[], result='bytes',
+                     ensures={'value': 'salt is not None ==> result == spec.kdf.bcrypt(password, cost, salt)',
+                              # (with salt=None the 16 salt bytes are fresh entropy: only the layout is stated)
+                              'layout': 'len(result) == 60 and result[:7] == b"$2a$" + bytes([48 + cost // 10, 48 + cost % 10]) + b"$"'},
+                     opaque=['spec.kdf.bcrypt_raw']))
+    # ---- bcrypt_check: accepts exactly the matching password / hash pairs
+    cost_h = '(10 * (bcrypt_hash[4] - 48) + (bcrypt_hash[5] - 48))'
+    salt_h = 'spec.kdf.bcrypt64_dec(bcrypt_hash[7:29])'
+    shape = 'len(bcrypt_hash) == 60 and bcrypt_hash[:4] == b"$2a$" and spec.kdf.bcrypt_fmt_ok(bcrypt_hash)'
+    accept = ('%s and spec.kdf.bcrypt_domain_ok(password, %s, 16) and bcrypt_hash == spec.kdf.bcrypt(password, %s, %s)'
+              % (shape, cost_h, cost_h, salt_h))
+    reg.add(Contract(K + 'bcrypt_check', params={'password': 'bytes', 'bcrypt_hash': 'bytes'},
+                     raises={'ValueError': ('iff', 'not (%s)' % accept)}, modifies=[],
+                     opaque=['spec.kdf.bcrypt']))
+    return reg
+
+
+def registry(pbkdf2=None, num_keys=1, count=None, scrypt=False, bcrypt=False, cost=None):
     reg = base_registry()
     add_hash_natives(reg)
     add_hkdf(reg)
     add_prf_natives(reg)
     add_kdfs(reg, pbkdf2, num_keys, count)
+    if scrypt:
+        add_scrypt(reg, num_keys)
+    if bcrypt:
+        add_bcrypt(reg, cost)
     return reg
 
 
@@ -326,4 +555,24 @@ def units(prop, tier):
     from vf.pyunit import pyvc_unit
     if prop != 'C12':
         return []
-    return [pyvc_unit(prop, 'kdf.hkdf_core', registry, [K + '_HKDF_extract', K + '_HKDF_expand'])]
+    thorough = tier != 'quick'
+
+    def R(**kw):
+        return lambda: registry(**kw)
+    us = [pyvc_unit(prop, 'kdf.hkdf_core', registry, [K + '_HKDF_extract', K + '_HKDF_expand']),
+          pyvc_unit(prop, 'kdf.pbkdf1', registry, [K + 'PBKDF1']),
+          pyvc_unit(prop, 'kdf.pbkdf2.fast', R(pbkdf2='fast'), [K + 'PBKDF2'], weight=4),
+          pyvc_unit(prop, 'kdf.bcrypt_hash', R(bcrypt=True), [K + '_bcrypt_hash']),
+          pyvc_unit(prop, 'kdf.bcrypt.refuse', R(bcrypt=True, cost='refuse'), [K + 'bcrypt'], weight=2),
+          pyvc_unit(prop, 'kdf.bcrypt_check', R(bcrypt=True), [K + 'bcrypt_check'], weight=4)]
+    # instantiated parameters (see the contracts): number of keys (result shape), iteration count of PBKDF2's generic path, bcrypt cost
+    for nk in (range(1, 9) if thorough else (1, 2, 3)):
+        us.append(pyvc_unit(prop, 'kdf.hkdf.keys%d' % nk, R(num_keys=nk), [K + 'HKDF']))
+        us.append(pyvc_unit(prop, 'kdf.sp800_108.keys%d' % nk, R(num_keys=nk), [K + 'SP800_108_Counter'], weight=2))
+    for nk in ((1, 2, 3, 4) if thorough else (1, 2)):
+        us.append(pyvc_unit(prop, 'kdf.scrypt.keys%d' % nk, R(scrypt=True, num_keys=nk), [K + 'scrypt'], weight=4))
+    for c in ((1, 2, 3) if thorough else (1, 2)):
+        us.append(pyvc_unit(prop, 'kdf.pbkdf2.generic.count%d' % c, R(pbkdf2='generic', count=c), [K + 'PBKDF2'], weight=4))
+    for c in (range(4, 32) if thorough else (4, 9, 10, 12, 31)):
+        us.append(pyvc_unit(prop, 'kdf.bcrypt.cost%02d' % c, R(bcrypt=True, cost=c), [K + 'bcrypt'], weight=3))
+    return us
